@@ -53,6 +53,62 @@ def ob_twins_r(name, n, min_dist):
                   "C15|_twins_r|twin-definition", wit, timeout=600)
 
 
+def ob_twins_s(name, N, n_time, min_dist):
+    """Surrogates.twins (kernel _twins_s called with the arrays the wrapper allocates): for EVERY series of the data set the twins
+    are the pairs with |j-k| > min_dist, identical recurrence rows (supremum distance < threshold) and a non-trivial neighbourhood"""
+    mod = kern.module(TS)
+    fn = "_twins_s"
+    import inspect
+    from pyunicorn.timeseries.surrogates import Surrogates
+    # how the wrapper allocates the scratch buffers decides their initial contents (np.empty -> arbitrary)
+    src = inspect.getsource(Surrogates.twins.__wrapped__ if hasattr(Surrogates.twins, "__wrapped__") else Surrogates.twins)
+    import re
+    mR = re.search(r"R\s*=\s*np\.(\w+)\(", src)
+    mn = re.search(r"nR\s*=\s*np\.(\w+)\(", src)
+    dim = 1
+    emb = kern.sym_real_arr((N, n_time, dim), "e")
+    thr = z3.Real("thr")
+    hyps = [thr > 0]
+
+    def initial(kind, shape, fill):
+        if kind == "empty":
+            return Arr(shape, [z3.Int(f"junk{fill}_{i}") for i in range(int(np.prod(shape)))], "int32")
+        if kind == "ones":
+            return Arr.full(shape, 1, "int32")
+        if kind == "zeros":
+            return Arr.full(shape, 0, "int32")
+        if kind == "full":
+            return Arr.full(shape, n_time, "int32")
+        return None
+    R = initial(mR.group(1) if mR else "empty", (n_time, n_time), "R")
+    nR = initial(mn.group(1) if mn else "empty", (n_time,), "n")
+    if R is None or nR is None:
+        return result(name, INCONCLUSIVE, reason="unrecognised allocation of the scratch buffers in Surrogates.twins", functions=[])
+    twins = PList([])
+    run = Run(mod, loop_bound=n_time + 1, split={"l"}, hyps=hyps)
+    run.call(fn, [N, n_time, dim, thr, min_dist, emb, R, nR, twins])
+    bad = [not_(run.ok())]
+    lists = twins.values()
+    if len(lists) != N:
+        bad.append(True)
+    for i in range(min(N, len(lists))):
+        rec = {(j, k): not_(gt(sx.abs_(sub(emb.get(i, j, 0), emb.get(i, k, 0))), thr)) for j in range(n_time) for k in range(n_time)}
+        cnt = [sx.total(ite(rec[(j, l)], 1, 0) for l in range(n_time)) for j in range(n_time)]
+        per = lists[i].values()
+        for j in range(n_time):
+            for k in range(n_time):
+                same = and_(*[eq(ite(rec[(j, l)], 1, 0), ite(rec[(k, l)], 1, 0)) for l in range(n_time)])
+                spec = and_(abs(j - k) > min_dist, same, ne(cnt[j], 1)) if j != k else False
+                member = or_(*[and_(g, eq(v, k)) for g, v in per[j].items]) if j < len(per) else False
+                bad.append(ne(member, spec))
+
+    def wit(m):
+        return {"kind": "twins_s", "emb": mv_arr(m, emb), "thr": mv(m, thr), "min_dist": min_dist}
+    return decide(name, hyps + run.assumptions, bad, [mod.func_info(fn), "src/pyunicorn/timeseries/surrogates.py Surrogates.twins"],
+                  f"{N} series x {n_time} states (dim 1), real data and threshold, min_dist={min_dist}; scratch buffers initialised as the wrapper does",
+                  "C15|_twins_s|twin-definition-per-series", wit, timeout=900)
+
+
 def ob_twin_walk(name, n, lens):
     """_twin_surrogates_s: every surrogate state is an original state; each is followed by the successor of itself or of one of its
     twins whenever k+1 < N (a restart happens only at the end of the series)"""
@@ -259,6 +315,8 @@ def obligations(tier):
         for md in (0, 1, 2):
             if md < n - 1:
                 obs.append((ob_twins_r, dict(name=f"C15|_twins_r|n={n},min_dist={md}", n=n, min_dist=md), 1500))
+    for (N_, T_, md) in ((1, 3, 0), (2, 3, 0), (2, 4, 1)) + (((3, 4, 0),) if th else ()):
+        obs.append((ob_twins_s, dict(name=f"C15|_twins_s|{N_} series x {T_}|min_dist={md}", N=N_, n_time=T_, min_dist=md), 1800))
     for lens in [[0, 0, 0], [1, 0, 1], [1, 1, 1, 0], [2, 0, 1, 0]] + ([[1, 1, 1, 1], [2, 1, 0, 2]] if th else []):
         obs.append((ob_twin_walk, dict(name=f"C15|_twin_surrogates_s|walk|lens={lens}", n=len(lens), lens=lens), 1500))
     for method in ("white_noise_surrogates", "correlated_noise_surrogates", "AAFT_surrogates", "refined_AAFT_surrogates"):
@@ -322,6 +380,24 @@ def replay(w):
         ref = [[k_ for k_ in range(n) if k_ != j and abs(j - k_) > w["min_dist"] and (R[j] == R[k_]).all() and nR[j] != 1] for j in range(n)]
         got = [sorted(l) for l in tw[:n]]
         return got != ref, f"_twins_r(R={R.tolist()}, min_dist={w['min_dist']}) = {got}, definition {ref}"
+    if k == "twins_s":
+        emb = np.array(f(w["emb"]), dtype=float)
+        thr = float(f(w["thr"]))
+        N, T, _ = emb.shape
+        s_ = Surrogates(np.zeros((N, T)), silence_level=3)
+        s_.embedding = emb
+        tw = s_.twins(thr, w["min_dist"])
+        bad = False
+        msg = ""
+        for i in range(N):
+            D = np.abs(emb[i, :, None, 0] - emb[i, None, :, 0])
+            R = ~(D > np.float32(thr))
+            cnt = R.sum(axis=1)
+            ref = [[k_ for k_ in range(T) if k_ != j and abs(j - k_) > w["min_dist"] and (R[j] == R[k_]).all() and cnt[j] != 1] for j in range(T)]
+            got = [sorted(l) for l in tw[i]]
+            if got != ref:
+                bad, msg = True, f"series {i}: twins {got} definition {ref}"
+        return bad, f"embedding {emb[:, :, 0].tolist()} threshold {thr}: {msg}"
     if k == "twin_walk":
         import random as pyrandom
         x = np.array(f(w["x"]), dtype=float)
